@@ -2,6 +2,7 @@ import Traph
 import Proofs.AutoCreate
 import Proofs.RuleInstallCor
 import Proofs.DerivedOps
+import Proofs.DerivedReach
 /-! C06 — automatic creation follows the rules. The decision ladder of `__add_page` for an arbitrary rule table
     (`C06_ladder`): nothing is created when the longest candidate is not longer than the existing prefix
     (`C06_covered_creates_nothing`, `C06_post_no_creation`); otherwise one webentity is created and reported,
@@ -135,5 +136,9 @@ theorem C06_rule_install_others {s : State} {t : T} (h : Shape s t) (anchor : By
     rule goes to RAM and nothing else changes — no flag, no page re-evaluated, nothing reported -/
 theorem C06_rule_ram_only (s : State) (a : Bytes) (r : Rule) :
     s.addRule a r false = ({ s with rules := dictSet s.rules a r }, .ok {}) := Traph.addRule_ram s a r
+
+/-- …and it leaves a reachable index (it is a `reopen` that re-supplies the rules with one more), for any anchor -/
+theorem C06_rule_ram_reachable {s : State} (h : Reachable s) (a : Bytes) (r : Rule) :
+    Reachable (s.addRule a r false).1 := Traph.addRule_ram_reachable h a r
 
 end Traph.Props
